@@ -278,6 +278,74 @@ def run_enum(case):
     return info
 
 
+# ----------------------------------------------------------------------------- very many positions / very many sites (size-dependent code paths)
+def run_large(case):
+    """hundreds of thousands of atom positions (frames x atoms) in one call, or tens of thousands of sites: states vs brute force, in blocks"""
+    from gemdat.transitions import _calculate_atom_states
+
+    M = np.array(case['lattice']['matrix'], float)
+    Minv = np.linalg.inv(M)
+    T, N, S, r = case['frames'], case['atoms'], case['n_sites'], case['radius']
+    g = int(np.ceil(S ** (1 / 3)))
+    sf = np.array([[(i + 0.02) / g, (j + 0.5) / g, (k + 0.98) / g] for i in range(g) for j in range(g) for k in range(g)])[:S] % 1.0
+    dirs = np.array(gen.unit_dirs())
+    t_ = np.arange(T).reshape(T, 1)
+    a_ = np.arange(N).reshape(1, N)
+    which = (S - 1 - ((t_ // 5 + 3 * a_) % min(S, 7))) % S            # the sites with the highest indices are visited
+    rad = np.array([0.3, 0.8, 1.3, 1.55])[(t_ + a_) % 4] * r            # inside, inside, outside, further outside (but far from every other site)
+    dvec = dirs[(t_ * 7 + a_ * 3) % 26]
+    pos = sf[which] + (dvec * rad[..., None]) @ Minv
+    pos = pos - np.floor(pos)
+    traj = cases.trajectory(pos, ['Li'] * N, M, 1e-15, 300.0)
+    sites = cases.sites_structure(M, sf, [('A' if i % 2 else 'B') for i in range(S)])
+    radius = {'A': r, 'B': r} if case['radius_dict'] else {'': r}
+    got = np.asarray(gcall(_calculate_atom_states, sites=sites, trajectory=traj, site_radius=radius))
+    if got.shape != (T, N):
+        raise Violation('states-shape', f'{got.shape}')
+    # brute force, block by block; only the candidate site of each position and its grid neighbours can be within the radius
+    flat = pos.reshape(-1, 3)
+    gf, wf = got.reshape(-1), which.reshape(-1)
+    inside = (rad.reshape(-1) < r)
+    want = np.where(inside, wf, -1)
+    # the plan is confirmed by brute force over ALL sites on a sample of the positions (site blocks of 4000)
+    sample = np.unique(np.linspace(0, len(flat) - 1, 300 if S > 1000 else 3000).astype(int))
+    dmin = np.full(len(sample), np.inf)
+    amin = np.full(len(sample), -1)
+    for lo in range(0, S, 4000):
+        D_ = oracle.min_image_dist(sf[lo:lo + 4000], flat[sample], M)
+        k_ = D_.argmin(axis=0)
+        v_ = D_[k_, np.arange(len(sample))]
+        better = v_ < dmin
+        dmin[better], amin[better] = v_[better], k_[better] + lo
+    brute = np.where(dmin < r, amin, -1)
+    if np.any(np.abs(dmin - r) < 1e-6) or not np.array_equal(brute, want[sample]):
+        raise AssertionError('generator: the planned assignment differs from the brute-force minimum-image assignment')
+    bad = np.flatnonzero(gf != want)
+    if len(bad):
+        k = int(bad[0])
+        dk = float(oracle.min_image_dist(sf[[wf[k]]], flat[[k]], M)[0, 0])
+        raise Violation('outer-state-is-site-within-radius', f'{T} frames x {N} atoms x {S} sites: position {k} (frame {k // N}, atom {k % N}) lies {dk:.4f} A from site {int(wf[k])} (radius {r}): assigned {int(gf[k])}, expected {int(want[k])}; {len(bad)} of {len(flat)} entries differ')
+    return {'nontrivial': True, 'labels': [case['lattice']['family'], f'positions={T * N}', f'sites={S}']}
+
+
+def large_size(tier):
+    return 3 if tier == 'quick' else 5
+
+
+def large_case(tier, idx):
+    lat = gen.fixed_lattice(['triclinic', 'hexagonal', 'cubic', 'monoclinic', 'orthorhombic'][idx % 5], ['lower', 'rot', 'pmg'][idx % 3])
+    L = float(np.linalg.norm(np.array(lat['matrix']), axis=1).min())
+    if idx == 1:  # very many sites: a big cell (scaled so that neighbouring sites are > 3 A apart), indices beyond 2^15
+        S = 33800
+        g = int(np.ceil(S ** (1 / 3)))
+        scale = 3.2 * g / L
+        lat = dict(lat, matrix=(np.array(lat['matrix']) * scale).tolist())
+        return {'lattice': lat, 'frames': 40, 'atoms': 2, 'n_sites': S, 'radius': 1.0, 'radius_dict': True}
+    scale = 3.2 * 2 / L
+    lat = dict(lat, matrix=(np.array(lat['matrix']) * scale).tolist())
+    return {'lattice': lat, 'frames': [174800, 0, 262201, 131100, 349600][idx], 'atoms': [3, 0, 2, 4, 3][idx], 'n_sites': 8, 'radius': 0.9, 'radius_dict': bool(idx % 2)}
+
+
 SUBS = [
     Sub(name='states', kind='hyp', run=run, strategy=lambda tier: states_cases(tier),
         rule='all lattice families x 3 orientations; 1-6 labelled sites (corner/face positions over-represented); radius float or per-label dict; inner fraction in (0,1]; atoms placed deep inside / at the inner edge / in the shell / at the outer edge / just outside / interstitial along 26 directions',
@@ -288,6 +356,9 @@ SUBS = [
     Sub(name='automatic-radius-close-pair', kind='hyp', run=run_auto, strategy=close_pair_cases,
         rule='radius=None with a pair of sites 0.35-1.3 A apart (split sites; also across a cell face; 0-2 further sites) in all cells, atoms at 0-0.7 x the separation from either site or only vibrating: same clauses as automatic-radius (rule, disjoint spheres, states and inner states at that radius, the "too close" error iff implied)',
         n={'quick': 60, 'thorough': 1500}, shards={'quick': 4, 'thorough': 16}),
+    Sub(name='large-systems', kind='enum', run=run_large, size=large_size, case_at=large_case, exhaustive=True,
+        rule='small family, complete: 524 400 (quick) / up to 1 048 800 (thorough) atom positions (frames x atoms, not a multiple of 2^18) over 8 sites, and 33 800 sites (indices beyond 2^15) with two atoms visiting the highest-numbered ones, in triclinic / hexagonal / rotated cells; atoms at 0.3 / 0.8 / 1.3 / 1.55 radii from their site along 26 directions: states vs the planned minimum-image assignment',
+        shards={'quick': 3, 'thorough': 5}),
     Sub(name='enum-directions', kind='enum', run=run_enum, size=enum_size, case_at=enum_case, exhaustive=True,
         rule='complete enumeration: 7 lattice families x 3 orientations x first site at cell corner / each face centre / each edge centre / next to a face (second site half a cell away) x radius float / per-label dict (labels A, A1) x coordinates wrapped / given in other periodic images; two atoms visit all 26 Cartesian directions x 6 radial classes (centre, 2e-3 A inside/outside the inner radius, 2e-3 A inside/outside the radius, 1.5 r) around their site; outer and inner states vs brute-force minimum image, direct and through the public pipeline',
         shards={'quick': 16, 'thorough': 16}),
